@@ -224,7 +224,7 @@ func init() {
 	// Add flags to save-pipeline command
 	savePipelineCmd.Flags().StringSliceP("keywords", "k", nil, "Keywords for the pipeline (comma-separated)")
 	savePipelineCmd.Flags().StringP("category", "c", "", "Category/niche for the pipeline")
-	savePipelineCmd.Flags().StringSliceP("platforms", "p", nil, "Supported platforms (comma-separated)")
+	savePipelineCmd.Flags().StringSlice("platforms", nil, "Supported platforms (comma-separated)") // no shorthand: -p is the global --platform
 	savePipelineCmd.Flags().String("description", "", "Custom description for the pipeline")
 }
 
